@@ -14,6 +14,7 @@ import common as C
 import gen as G
 
 THEOREMS = ['promotion_table_is_numpy', 'fill_ok_promote', 'mergemany_app_partial', 'mergemany_valid_partial',
+            'mergemany_dtype_partial', 'concat_app_partial', 'mergemany_option_mix_partial',
             'merge_as_union_app', 'merge_as_union_valid', 'simplify_option_value', 'simplify_option_flat',
             'simplify_union_value_partial', 'astype_only_casts_partial']
 DRIVERS = ('mergedrv',)
